@@ -4,11 +4,11 @@
   seeded.py verify <dir>    in a scratch worktree of /repo HEAD: demo passes, patch applies, the pinned test-suite
                             still passes, demo fails with the patch; the worktree is removed afterwards
   seeded.py detect <dir> [--tier quick|thorough] [--check Cxx]
-                            apply the patch to /repo, run the property's check, undo the patch; records the outcome
+                            apply the patch in a scratch worktree, run the property's check against it; records the outcome
                             in <dir>/meta.json under "detection"
   seeded.py import <src dir> <Cxx-mutN>   copy a sub-agent's deliverable into seeded/ and verify it
   seeded.py all [--tier ..] detect every seeded change and print a table
-Nothing here is part of a registered check; /repo is always restored with `git checkout -- .`.
+Nothing here is part of a registered check; /repo is never modified (scratch worktrees, removed afterwards).
 """
 import json
 import os
@@ -59,24 +59,28 @@ def verify(d):
 
 
 def detect(d, tier='quick', check=None):
+    """The seeded change is applied in a scratch worktree of /repo HEAD (removed afterwards) and the check runs with
+    TORCHTREE_REPO pointing at it: /repo itself is never touched, so detections can run side by side."""
     meta = json.load(open(os.path.join(d, 'meta.json')))
     pid = check or meta['property']
-    rc, out = sh(['git', '-C', REPO, 'status', '--porcelain'])
-    if out.strip():
-        print('refusing: /repo has uncommitted changes')
-        return None
-    rc, out = sh(['git', '-C', REPO, 'apply', os.path.join(os.path.abspath(d), 'patch.diff')])
-    if rc != 0:
-        print('patch does not apply', out[-300:])
-        return None
+    wt = tempfile.mkdtemp(prefix='seedwt_')
+    os.rmdir(wt)
     t0 = time.time()
     try:
-        rc, out = sh([os.path.join(VERIF, 'check'), pid, '--tier', tier], cwd=VERIF, timeout=7200)
+        rc, out = sh(['git', '-C', REPO, 'worktree', 'add', '--detach', '-q', wt, 'HEAD'])
+        assert rc == 0, out
+        rc, out = sh(['git', '-C', wt, 'apply', os.path.join(os.path.abspath(d), 'patch.diff')])
+        if rc != 0:
+            print('patch does not apply', out[-300:])
+            return None
+        env = dict(os.environ, TORCHTREE_REPO=wt)
+        rc, out = sh([os.path.join(VERIF, 'check'), pid, '--tier', tier], cwd=VERIF, timeout=10800, env=env)
     finally:
-        sh(['git', '-C', REPO, 'checkout', '--', '.'])
+        sh(['git', '-C', REPO, 'worktree', 'remove', '--force', wt])
     viol = [l for l in out.splitlines() if l.startswith('VIOLATION')]
     what = [l.strip()[:300] for l in out.splitlines() if l.strip().startswith('what:')][:2]
     outcome = 'DETECTED' if rc == 1 and viol else ('INCONCLUSIVE' if rc == 2 else ('MISSED' if rc == 0 else f'rc={rc}'))
+    meta = json.load(open(os.path.join(d, 'meta.json')))
     meta.setdefault('detection', {})[f'{pid}:{tier}'] = {'outcome': outcome, 'exit': rc, 'violations': len(viol), 'what': what,
                                                         'wall_s': round(time.time() - t0, 1)}
     json.dump(meta, open(os.path.join(d, 'meta.json'), 'w'), indent=1)
